@@ -41,6 +41,19 @@ macro_rules! row {
 /// `to_string` and `build` of a query statement on the selected backends.
 fn rq<S: QueryStatementWriter>(s: &S, mask: u8) -> String {
     let mut o = String::new();
+    if lite() {
+        // Miri: a single `build` (SQL + collected values) on one backend:
+        // ALL / *+PG -> Postgres, MySQL-only rows -> MySQL, SQLite-only rows -> SQLite
+        let (q, v) = if mask & PG != 0 {
+            s.build(PostgresQueryBuilder)
+        } else if mask & MY != 0 {
+            s.build(MysqlQueryBuilder)
+        } else {
+            s.build(SqliteQueryBuilder)
+        };
+        write!(o, "?: {q} {v:?}\n").unwrap();
+        return o;
+    }
     if mask & MY != 0 {
         let (q, v) = s.build(MysqlQueryBuilder);
         write!(o, "my: {}\nmy? {} {:?}\n", s.to_string(MysqlQueryBuilder), q, v).unwrap();
@@ -59,6 +72,16 @@ fn rq<S: QueryStatementWriter>(s: &S, mask: u8) -> String {
 /// `to_string` and `build` of a schema statement on the selected backends.
 fn rs<S: SchemaStatementBuilder>(s: &S, mask: u8) -> String {
     let mut o = String::new();
+    if lite() {
+        if mask & PG != 0 {
+            write!(o, "pg! {}\n", s.build_any(&PostgresQueryBuilder)).unwrap();
+        } else if mask & MY != 0 {
+            write!(o, "my! {}\n", s.build(MysqlQueryBuilder)).unwrap();
+        } else {
+            write!(o, "sl! {}\n", s.build(SqliteQueryBuilder)).unwrap();
+        }
+        return o;
+    }
     if mask & MY != 0 {
         write!(o, "my: {}\nmy! {}\n", s.to_string(MysqlQueryBuilder), s.build(MysqlQueryBuilder)).unwrap();
     }
@@ -593,7 +616,19 @@ fn idens_and_refs(rig: &mut Rig) {
 }
 
 fn values(rig: &mut Rig) {
-    row!(rig, "Values", Values, ce, || Values(all_values()), |t| t.0.iter().map(value_strings).collect::<Vec<_>>().join("\n"));
+    row!(rig, "Values", Values, ce, || Values(if lite() { all_values_some() } else { all_values() }), |t| t
+        .0
+        .iter()
+        .enumerate()
+        .filter(|(i, _)| !lite() || i % 4 == 1) // lite: all variants are cloned/compared/dropped, every 4th is rendered
+        .map(|(i, v)| match (lite(), i % 3) {
+            (false, _) => value_strings(v),
+            (true, 0) => MysqlQueryBuilder.value_to_string(v),
+            (true, 1) => PostgresQueryBuilder.value_to_string(v),
+            (true, _) => SqliteQueryBuilder.value_to_string(v),
+        })
+        .collect::<Vec<_>>()
+        .join("\n"));
     row!(rig, "Value/Array", Value, ce, || Value::Array(ArrayType::Json, Some(Box::new(all_values_some().into_iter().filter(|v| matches!(v, Value::Json(_))).collect()))), value_strings);
     row!(rig, "Value/Json", Value, ce, || all_values_some().into_iter().find(|v| matches!(v, Value::Json(_))).unwrap(), value_strings);
     row!(rig, "Value/String", Value, ce, || Value::from("shared \\'string'"), |t| re(Expr::val(t.clone()), ALL));
